@@ -138,7 +138,7 @@ class CHECK(core.Check):
             "random orders of random subsets (2..all modules, with repeats and with the top-level package at a random "
             "position). Host configurations (correspondence/oracle only): the package and, in thorough, every module "
             "alone, in quick 3 modules rotating with the seed, under each of: std streams closed (fd 0, 1, 2, all), -S, "
-            "-E -s, no flags, -O, -OO, -B, cwd=/proc, C locale without UTF-8 mode. Thorough tier also: about 900 random ordered pairs and 300 random triples of modules that "
+            "-E -s, no flags, -O, -OO, -B, cwd=/proc, C locale without UTF-8 mode. Thorough tier also: about 500 random ordered pairs and 150 random triples of modules that "
             "`import ioflo` does not load, across packages (the region where order independence is not proved); the synthetic tree harness/corpus/C01-synth (42 scenario packages exercising "
             "the import protocol: cycles, partial modules, star/__all__, fromlist, namespace packages, try/except, "
             "stdlib sub-module attributes ...; its modules alone, all ordered pairs and some permutations inside a "
@@ -491,11 +491,11 @@ class CHECK(core.Check):
             core_out = self.impl({"order": ["ioflo"]}) if "ioflo" in dom else ["-"]
             core = {x.split(":")[0] for x in core_out[-1].split()}
             non = [m for m in dom if m not in core]
-            for _ in range(900 if len(non) > 2 else 0):
+            for _ in range(500 if len(non) > 2 else 0):
                 a, b = rng.sample(non, 2)
                 if a.rpartition(".")[0] != b.rpartition(".")[0]:
                     cases.append({"order": [a, b]})
-            for _ in range(300 if len(non) > 3 else 0):
+            for _ in range(150 if len(non) > 3 else 0):
                 cases.append({"order": rng.sample(non, 3)})
             cases += self.synth_cases(rng)
         return self.prefetch(cases)
